@@ -70,6 +70,12 @@ type xfer struct {
 	limit       uint64
 	reqFin      bool
 	forcePause  bool
+	// validator outcomes for this transfer: 0 accept, 1 reject, 2 error
+	newOutcome     int
+	restartOutcome int
+	rejectResult   bool // a rejection carries a voucher result
+	rawKind        string // hand-built request variant ("" = normal open): "no-voucher", "no-selector"
+	raw            bool
 }
 
 func (x *xfer) sender(nr *netRun) *Node {
@@ -261,6 +267,15 @@ func (nr *netRun) validateNew(n *Node, kind string, chid datatransfer.ChannelID)
 		if nr.cfg.vouchers {
 			res.VoucherResult = &datatransfer.TypedVoucher{Voucher: basicnode.NewString(fmt.Sprintf("vr-new-%d", x.idx)), Type: "R0"}
 		}
+		switch x.newOutcome {
+		case 1:
+			res.Accepted = false
+			if x.rejectResult {
+				res.VoucherResult = &datatransfer.TypedVoucher{Voucher: basicnode.NewString(fmt.Sprintf("vr-reject-%d", x.idx)), Type: "R0"}
+			}
+		case 2:
+			return res, errors.New("validator failed")
+		}
 	}
 	return res, nil
 }
@@ -271,6 +286,14 @@ func (nr *netRun) validateRestart(n *Node, chid datatransfer.ChannelID, st datat
 		// keep the current terms of the channel
 		res.DataLimit = st.DataLimit()
 		res.RequiresFinalization = st.RequiresFinalization()
+		switch x.restartOutcome {
+		case 1:
+			res.Accepted = false
+			x.rejectedByB = true
+		case 2:
+			x.rejectedByB = true
+			return res, errors.New("restart validator failed")
+		}
 	}
 	return res, nil
 }
@@ -344,6 +367,21 @@ func (nr *netRun) genXfer(i int) *xfer {
 	if nr.cfg.forcePause && r.Intn(3) == 0 {
 		x.forcePause = true
 	}
+	if nr.cfg.rejects {
+		switch r.Intn(6) {
+		case 0:
+			x.newOutcome = 1
+			x.rejectResult = r.Intn(2) == 0
+		case 1:
+			x.newOutcome = 2
+		case 2:
+			x.voucher.Type = "TX" // no validator registered for this type on the responder
+		case 3:
+			x.restartOutcome = 1 + r.Intn(2)
+		case 4:
+			x.rawKind = []string{"no-voucher", "no-selector"}[r.Intn(2)]
+		}
+	}
 	return x
 }
 
@@ -357,6 +395,26 @@ func (nr *netRun) open(x *xfer) {
 	}
 	if x.perChA {
 		opts = append(opts, datatransfer.WithTransportOptions(gst.UseStore(st.LinkSystem())))
+	}
+	if x.rawKind != "" {
+		// a hand-built new request without voucher / without selector, sent by the legitimate peer's network layer
+		tid := datatransfer.TransferID(777000 + x.idx)
+		var v *datatransfer.TypedVoucher
+		sel := x.sel
+		if x.rawKind == "no-selector" {
+			sel = nil
+			v = &x.voucher
+		}
+		msg, err := message.NewRequest(tid, false, false, v, x.root, sel)
+		if err == nil {
+			x.chid = datatransfer.ChannelID{Initiator: nr.A.ID, Responder: nr.B.ID, ID: tid}
+			x.pull = false
+			x.raw = true
+			err = a.Net.SendMessage(context.Background(), nr.B.ID, msg)
+		}
+		x.openErr = err
+		nr.w.Logf("APP A raw %s request tid=%d -> %v", x.rawKind, tid, err)
+		return
 	}
 	var chid datatransfer.ChannelID
 	var err error
@@ -756,8 +814,15 @@ func (nr *netRun) evaluate() {
 	nr.B.collectGS()
 	nr.checkChannelCount()
 	for _, x := range nr.xs {
+		if x.raw {
+			nr.checkC04NotAccepted(x)
+			continue
+		}
 		if !x.opened {
 			continue
+		}
+		if x.newOutcome != 0 || x.voucher.Type == "TX" {
+			nr.checkC04NotAccepted(x)
 		}
 		nr.checkC01(x)
 		nr.checkC02(x)
@@ -922,6 +987,13 @@ var _ = strings.Join
 
 func init() {
 	base := func(r *RunCtx) netCfg { return netCfg{nCh: 1 + r.Intn(2), stores: r.Intn(2) == 0, preseed: r.Intn(4) == 0} }
+	crashCfg := func(r *RunCtx) netCfg {
+		c := base(r)
+		c.crash = true
+		c.limits, c.finalization, c.pauses = r.Intn(3) == 0, r.Intn(3) == 0, r.Intn(4) == 0
+		c.monitorA, c.monitorB = r.Intn(2) == 0, r.Intn(3) == 0
+		return c
+	}
 	pausesCfg := func(r *RunCtx) netCfg {
 		c := base(r)
 		c.pauses = true
@@ -968,13 +1040,6 @@ func init() {
 		}
 		return c
 	}
-	crashCfg := func(r *RunCtx) netCfg {
-		c := base(r)
-		c.crash = true
-		c.limits, c.finalization, c.pauses = r.Intn(3) == 0, r.Intn(3) == 0, r.Intn(4) == 0
-		c.monitorA, c.monitorB = r.Intn(2) == 0, r.Intn(3) == 0
-		return c
-	}
 	Register("C01", Stratum{Name: "net-process-crash-and-restart", Weight: 1, Fn: netTransfer(crashCfg)})
 	Register("C10", Stratum{Name: "net-process-crash-and-restart", Weight: 3, Fn: netTransfer(crashCfg)})
 	Register("C06", Stratum{Name: "net-process-crash-and-restart", Weight: 2, Fn: netTransfer(crashCfg)})
@@ -989,7 +1054,19 @@ func init() {
 	Register("C10", Stratum{Name: "net-restarts", Weight: 4, Fn: netTransfer(restartsCfg)}, Stratum{Name: "net-mixed", Weight: 1, Fn: netTransfer(mixCfg)})
 	Register("C02", Stratum{Name: "net-mixed", Weight: 2, Fn: netTransfer(mixCfg)})
 	Register("C19", Stratum{Name: "net-vouchers", Weight: 3, Fn: netTransfer(vouchersCfg)}, Stratum{Name: "net-mixed", Weight: 1, Fn: netTransfer(mixCfg)})
-	Register("C04", Stratum{Name: "net-mixed", Weight: 2, Fn: netTransfer(mixCfg)})
+	validatorCfg := func(r *RunCtx) netCfg {
+		c := base(r)
+		c.rejects = true
+		c.limits, c.finalization, c.forcePause, c.vouchers = r.Intn(2) == 0, r.Intn(2) == 0, r.Intn(3) == 0, r.Intn(2) == 0
+		if r.Intn(2) == 0 {
+			c.cuts = 1 + r.Intn(2)
+			c.monitorA = r.Intn(2) == 0
+		}
+		c.restarts = r.Intn(2) == 0
+		return c
+	}
+	Register("C04", Stratum{Name: "net-validator-outcomes", Weight: 5, Fn: netTransfer(validatorCfg)}, Stratum{Name: "net-mixed", Weight: 2, Fn: netTransfer(mixCfg)},
+		Stratum{Name: "net-process-crash-and-restart", Weight: 1, Fn: netTransfer(crashCfg)})
 	Register("C20", Stratum{Name: "net-mixed", Weight: 2, Fn: netTransfer(mixCfg)})
 	Register("C01",
 		Stratum{Name: "net-fault-free", Weight: 2, Fn: netTransfer(base)},
